@@ -20,7 +20,8 @@ UNIVERSE = ["x", "y", "z", "a b", "items", "filter", "nrow", "_q", "1a", "w", "_
 TRANSFORMS = ["filter", "filter_out", "head", "tail", "sort", "unique", "rbind", "cbind", "select", "unselect", "rename", "modify", "update", "drop_na", "slice", "copy", "deepcopy", "sample",
               "cbind_long", "update_long", "slice_cols:rev", "slice_cols:neg", "slice_cols:out",
               "modify_grouped:scalar", "modify_grouped:one", "modify_grouped:group", "modify_grouped:two", "modify_grouped:nrow", "modify_grouped:plus1",
-              "modify_first", "update_first", "modify_grouped_first"]
+              "modify_first", "update_first", "modify_grouped_first",
+              "join:left", "join:inner", "join:full", "join:semi", "join:anti"]
 
 
 def gen_shape(rng, nrow):
@@ -242,6 +243,21 @@ def transform(df, m):
         return out
     if m == "update":
         return df.update(di.DataFrame(y=np.arange(n) * 2)) if n else df.update(df)
+    if m.startswith("join:"):
+        # the right frame: the receiver's first column as the key (its first three distinct values) and two columns of its
+        # own; the receiver of a full join first loses the rows that hold the first key, so that the right frame has a row
+        # WITHOUT a match as well as rows with one — the column order of the result may not depend on which is the case
+        if not df.ncol or not n or "jx" in df or "jy" in df:
+            return df
+        key = df.colnames[0]
+        other = df.select(key).unique(key).head(3)
+        other = other.cbind(di.DataFrame(jx=np.arange(other.nrow), jy=np.arange(other.nrow) * 0.5))
+        kind = m.split(":")[1]
+        recv = df
+        if kind == "full":
+            first = np.asarray(df[key] == df[key][0], dtype=bool)
+            recv = df.filter_out(first) if first.any() and not first.all() else df
+        return getattr(recv, kind + "_join")(other, key)
     if m == "drop_na":
         return df.drop_na()
     if m == "slice":
@@ -265,8 +281,11 @@ def expected_names(m, order, n):
                 out.append(c)
         return out
     if m in ("filter", "filter_none", "filter_out", "head", "tail", "sort", "unique", "rbind", "drop_na", "slice", "copy", "deepcopy", "sample",
-             "modify_first"):
+             "modify_first", "join:semi", "join:anti"):
         return list(order)
+    if m in ("join:left", "join:inner", "join:full"):
+        # the receiver's columns in their order, then what the right frame adds, in its order — whichever rows match
+        return plus("jx", "jy") if order and n and "jx" not in order and "jy" not in order else list(order)
     if m == "update_first":
         # update is "the receiver's columns that `other` does not have, then all of `other`'s": a replaced column moves to the end
         return (list(order[1:]) + [order[0]]) if order and n else list(order)
@@ -390,8 +409,8 @@ def model_requests(case, obs):
             ops.append({"k": "colnames", "names": rec.get("names", [])})
         elif k == "transform":
             ops.append({"k": "rebuild", "pairs": rec["pairs"] if "pairs" in rec else [["__reject__", "nd"]]})
-    return [("fs_run", {"ident": [u for u in UNIVERSE + ["p", "q", "r", "s", "t", "u", "v2", "renamed", "B", "v", "zg", "wl"] if u.isidentifier()],
-                        "classAttr": [u for u in UNIVERSE + ["p", "q", "r", "s", "t", "u", "v2", "renamed", "B", "v", "zg", "wl"] if u in cls],
+    return [("fs_run", {"ident": [u for u in UNIVERSE + ["p", "q", "r", "s", "t", "u", "v2", "renamed", "B", "v", "zg", "wl", "jx", "jy"] if u.isidentifier()],
+                        "classAttr": [u for u in UNIVERSE + ["p", "q", "r", "s", "t", "u", "v2", "renamed", "B", "v", "zg", "wl", "jx", "jy"] if u in cls],
                         "universe": UNIVERSE, "init": case["init"], "ops": ops})]
 
 
